@@ -28,6 +28,9 @@ var c16ConvScripts = []string{
 	"#!/usr/bin/env perl\n# tool, first variant\nprint \"v0 @ARGV\\n\";\nexit 4;\n",
 	"#!/usr/bin/env perl\n# tool, second variant\nprint \"v1 it's @ARGV\\n\";\nexit 3;\n",
 	"print 'v2', \"\\n\";\n",
+	/* A first line of more than 80 bytes (a one-liner, a long first
+	statement); not part of the history alphabet. */
+	"print \"v3 \", \"a long first statement that goes on and on, well past the eightieth column of the line\", \" @ARGV\\n\"; exit 6;\n# second line\n",
 }
 
 // c16ConvAlphabet:
@@ -38,7 +41,9 @@ var c16ConvScripts = []string{
 //	F      a fresh default converter converts the directory
 //	S      another converter of the process switches *.pl off
 //	T      another converter of the process gets a custom *.pl filter
-const c16ConvAlphabet = "012CFST"
+//	U      the long-lived converter itself gets a filter for an unrelated
+//	       pattern (*.txt): nothing to do with Perl scripts
+const c16ConvAlphabet = "012CFSTU"
 
 func c16Converters(r *ev.Result, base string, depth int) {
 	var seqs []string
@@ -105,6 +110,8 @@ func c16Converters(r *ev.Result, base string, depth int) {
 					other.SetFilter("*.pl", nil)
 				case 'T':
 					other.SetFilter("*.pl", custom)
+				case 'U':
+					conv.SetFilter("*.txt", custom)
 				case 'C', 'F':
 					cv := conv
 					if 'F' == e {
